@@ -5,7 +5,9 @@
      cc            a character classification (case fold, \w, \s, \d); the
                    theorems hold for every cc (case stability: every cc with
                    [cc_ok cc], i.e. the classes are invariant under the fold)
-     sig_matches   ThreatSignature.matches / TLRPattern.matches
+     sig_matches   ThreatSignature.matches / TLRPattern.matches: a substring
+                   (KSub), a regex of the AST of Regex.v (KRx), or a host pattern
+                   (KHost f: any regex outside the AST, f an arbitrary function)
      mfilter       Membrane.filter;  mstep/mrun  one operation / a history of
                    filter, learn, forget, import, add_signature, set_threshold,
                    clock tick, clear_audit_log
@@ -70,16 +72,23 @@ Print Assumptions c10_level_is_max.
 (* Case changes (= anything preserving lower()): every signature, substring or
    regex, matches s iff it matches s'; hence the same scan; hence an input
    blocked by a scan is not allowed in any state with the same rules, and an
-   input blocked by an innate pattern is blocked whatever the validators do. *)
+   input blocked by an innate pattern is blocked whatever the validators do.
+   [sig_fold_ok cc g] is True for substring and AST-regex signatures; for a host
+   pattern (KHost f: back-references etc., matched by the host engine) it asks
+   that f itself does not tell apart contents with the same lower(). *)
 Theorem c10_case_stable :
   forall cc, cc_ok cc ->
-  (forall g s s', lower cc s = lower cc s' -> sig_matches cc g s = sig_matches cc g s') /\
-  (forall sigs s s', lower cc s = lower cc s' -> scan cc sigs s = scan cc sigs s') /\
+  (forall g, sig_fold_ok cc g ->
+     forall s s', lower cc s = lower cc s' -> sig_matches cc g s = sig_matches cc g s') /\
+  (forall sigs s s', (forall g, In g sigs -> sig_fold_ok cc g) ->
+     lower cc s = lower cc s' -> scan cc sigs s = scan cc sigs s') /\
   (forall cfg, c_cc cfg = cc -> forall st c st' r,
+     (forall g, In g (active st) -> sig_fold_ok cc g) ->
      mfilter cfg st c = (st', r) -> r_kind r = Scanned -> r_allowed r = false ->
      forall st2 c', same_rules st st2 -> lower cc c' = lower cc c ->
      r_allowed (snd (mfilter cfg st2 c')) = false) /\
   (forall st c st2 c' vals2,
+     (forall g, In g (i_pats st) -> sig_fold_ok cc g) ->
      i_threshold st <= max_level (scan cc (i_pats st) c) ->
      i_pats st2 = i_pats st -> i_threshold st2 = i_threshold st -> lower cc c' = lower cc c ->
      snd (icheck cc vals2 st2 c') = IRaised \/
@@ -117,7 +126,11 @@ Print Assumptions c10_embed_stable_substring.
    (Examples.v: the condition cannot be dropped.)  Hence a scan-blocked input
    stays blocked when so embedded: membrane, any state with the same rules, the
    edge conditions being required only if some matched signature is anchored
-   there; innate, any validators (stated with both edges non-\w). *)
+   there; innate, any validators (stated with both edges non-\w).
+   [sig_embed_ok cc g] is True for substring and AST-regex signatures; for a host
+   pattern (KHost f) it asks that a match of f survives surrounding text that
+   glues no \w character to either edge (a host pattern counts as anchored on
+   both edges: sig_edge_free_l/r are false for it). *)
 Theorem c10_embed_stable_regex :
   (forall cc r s pre post,
      (edge_free_l r = true \/ last_word cc false pre = false) ->
@@ -125,11 +138,13 @@ Theorem c10_embed_stable_regex :
      search cc r s = true -> search cc r (pre ++ s ++ post) = true) /\
   (forall cfg st c st' r,
      mfilter cfg st c = (st', r) -> r_kind r = Scanned -> r_allowed r = false ->
+     (forall g, In g (r_matched r) -> sig_embed_ok (c_cc cfg) g) ->
      forall st2 pre post, same_rules st st2 ->
      ((forall g, In g (r_matched r) -> sig_edge_free_l g = true) \/ last_word (c_cc cfg) false pre = false) ->
      ((forall g, In g (r_matched r) -> sig_edge_free_r g = true) \/ head_word (c_cc cfg) post = false) ->
      r_allowed (snd (mfilter cfg st2 (pre ++ c ++ post))) = false) /\
   (forall cc st c st2 pre post vals2,
+     (forall g, In g (i_pats st) -> sig_embed_ok cc g) ->
      i_threshold st <= max_level (scan cc (i_pats st) c) ->
      i_pats st2 = i_pats st -> i_threshold st2 = i_threshold st ->
      last_word cc false pre = false -> head_word cc post = false ->
@@ -137,6 +152,44 @@ Theorem c10_embed_stable_regex :
      exists r, snd (icheck cc vals2 st2 (pre ++ c ++ post)) = IOk r /\ ir_allowed r = false).
 Proof. exact embed_stable_regex_all. Qed.
 Print Assumptions c10_embed_stable_regex.
+
+(* "No active signature (built-in, CUSTOM, learned or imported) ... matches it",
+   for signatures of every kind, HOST patterns included (KHost f: a regex with
+   constructs outside the AST - numbered / named back-references, conditional
+   groups, lazy quantifiers ... - whose matcher f is an arbitrary function):
+   (1) the verdict of a host pattern on an input is f of that input and of
+   nothing else; (2,3) the scan consults every signature on its own - the
+   matched list of a concatenation is the concatenation of the matched lists,
+   and g is reported among a ++ g :: b exactly when g itself matches, whatever
+   a and b are (no other signature, built-in or not, can mask or alter it);
+   (4-7) a signature given to the constructor, to add_signature or to
+   add_pattern is active from then on through EVERY history (membrane: filter,
+   learn, forget, import, add_signature, set_threshold, ticks, clear_audit_log;
+   innate: check, add_pattern, reset, ticks, any validator lists);
+   (8,9) and while active it decides every input it matches: the membrane
+   refuses it when its level reaches the threshold and every scan reports it
+   with at least its level; check() lists it among the matched patterns and
+   does not allow the input when its severity reaches the threshold. *)
+Theorem c10_signatures_judged_alone :
+  (forall cc id key f lvl c, sig_matches cc (mkSig id key (KHost f) lvl) c = f c) /\
+  (forall cc a b c, scan cc (a ++ b) c = scan cc a c ++ scan cc b c) /\
+  (forall cc a g b c, In g (scan cc (a ++ g :: b) c) <-> sig_matches cc g c = true) /\
+  (forall cfg st g ops, In g (active (fst (mrun cfg (fst (mstep cfg st (OAddSig g))) ops)))) /\
+  (forall cfg ops st g, In g (m_sigs st) -> In g (active (fst (mrun cfg st ops)))) /\
+  (forall cc vals st g ops, In g (i_pats (irun cc (fst (istep cc vals st (IAddPattern g))) ops))) /\
+  (forall cc ops st g, In g (i_pats st) -> In g (i_pats (irun cc st ops))) /\
+  (forall cfg st g c,
+     In g (active st) -> sig_matches (c_cc cfg) g c = true ->
+     (m_threshold st <= s_level g -> r_allowed (snd (mfilter cfg st c)) = false) /\
+     (r_kind (snd (mfilter cfg st c)) = Scanned ->
+      In g (r_matched (snd (mfilter cfg st c))) /\ s_level g <= r_level (snd (mfilter cfg st c)))) /\
+  (forall cc vals st g c,
+     In g (i_pats st) -> sig_matches cc g c = true ->
+     snd (icheck cc vals st c) = IRaised \/
+     exists r, snd (icheck cc vals st c) = IOk r /\ In g (ir_matched r) /\
+               (i_threshold st <= s_level g -> ir_allowed r = false)).
+Proof. exact host_judged_alone_all. Qed.
+Print Assumptions c10_signatures_judged_alone.
 
 (* Once an input was blocked by a scan it is refused by every later filter
    call, whatever operations (learn, forget, import, add_signature,
